@@ -133,6 +133,36 @@ impl<'tcx> Cx<'tcx> {
                 }
                 let hex: String = bytes.iter().map(|b| format!("{:02x}", b)).collect();
                 parts.push(format!("\"bytes\":{}", esc(&hex)));
+            } else if let mir::ConstValue::Indirect { alloc_id, offset } = val {
+                // `const X: &[u8] = b"..."`: a fat pointer stored in memory
+                if let ty::Ref(_, inner, _) = ty.kind() {
+                    let is_bytes = matches!(inner.kind(), ty::Slice(e) if *e == tcx.types.u8) || inner.is_str();
+                    if is_bytes {
+                        if let rustc_middle::mir::interpret::GlobalAlloc::Memory(a) = tcx.global_alloc(alloc_id) {
+                            let a = a.inner();
+                            let off = offset.bytes() as usize;
+                            if a.len() >= off + 16 {
+                                let raw = a.inspect_with_uninit_and_ptr_outside_interpreter(off..off + 16);
+                                let mut p8 = [0u8; 8];
+                                p8.copy_from_slice(&raw[0..8]);
+                                let mut l8 = [0u8; 8];
+                                l8.copy_from_slice(&raw[8..16]);
+                                let poff = u64::from_le_bytes(p8) as usize;
+                                let len = u64::from_le_bytes(l8) as usize;
+                                if let Some(prov) = a.provenance().ptrs().get(&rustc_abi::Size::from_bytes(off as u64)) {
+                                    if let Some(rustc_middle::mir::interpret::GlobalAlloc::Memory(t)) = tcx.try_get_global_alloc(prov.alloc_id()) {
+                                        let t = t.inner();
+                                        if t.len() >= poff + len {
+                                            let b = t.inspect_with_uninit_and_ptr_outside_interpreter(poff..poff + len);
+                                            let hex: String = b.iter().map(|b| format!("{:02x}", b)).collect();
+                                            parts.push(format!("\"bytes\":{}", esc(&hex)));
+                                        }
+                                    }
+                                }
+                            }
+                        }
+                    }
+                }
             } else if let mir::ConstValue::Scalar(rustc_middle::mir::interpret::Scalar::Ptr(ptr, _)) = val {
                 // &[u8; N]
                 if let ty::Ref(_, inner, _) = ty.kind() {
